@@ -257,6 +257,11 @@ pub fn decode_stream(table: &[DEntry], log: u8, src: &[u8], n: usize) -> Result<
 
 /// Huffman-weight style: two interleaved states, number of symbols implied by stream exhaustion.
 pub fn decode_interleaved2(table: &[DEntry], log: u8, src: &[u8]) -> Result<Vec<u8>, String> {
+    decode_interleaved2_limit(table, log, src, 255)
+}
+
+/// `limit`: give up beyond that many symbols (255 for Huffman weights)
+pub fn decode_interleaved2_limit(table: &[DEntry], log: u8, src: &[u8], limit: usize) -> Result<Vec<u8>, String> {
     let mut r = BackReader::new(src)?;
     let mut d1 = FseDec::new(table, log);
     let mut d2 = FseDec::new(table, log);
@@ -279,8 +284,8 @@ pub fn decode_interleaved2(table: &[DEntry], log: u8, src: &[u8]) -> Result<Vec<
             out.push(d1.symbol());
             break;
         }
-        if out.len() > 255 {
-            return Err("fse weights: more than 255 weights".into());
+        if out.len() > limit {
+            return Err(format!("fse interleaved stream: more than {limit} symbols"));
         }
     }
     Ok(out)
